@@ -34,5 +34,7 @@ SEEDED = [
     ("C12-3", "C12-EMPTY"),
     ("C12-4", "C12-LIMIT"),
     ("C12-5", "C12-LIMIT"),
+    ("C12-6", "C12-LIMIT"),
+    ("C12-7", "C12-LIMIT"),
 ]
 MUTANTS = list(MUTANTS) + [_P("seed-" + sid, _os.path.join(_SEEDS, sid, "patch.diff"), rule) for sid, rule in SEEDED if _os.path.exists(_os.path.join(_SEEDS, sid, "patch.diff"))]
